@@ -10,6 +10,11 @@ and prints one observation per line; every observation is
     ring zone, selection contracts, replacement steps, generation boundaries of whole runs).
 tools/translate_tune.py regenerates Vita/C06/Gen.lean (the parameters is_valid and the three
 tune_parameters touch, from the clang AST); Props.lean proves the model covers exactly those.
+tools/translate_evolution.py regenerates Vita/C06/GenEvo.lean (statement skeleton of
+evolution::run, summary::summary/clear, the guarded effects of the selection / replacement
+strategies); Props.lean proves by `decide` that these are the tables the model interprets, the
+driver reads `summary::clear()` from them when it predicts the start of a further run.
+Whole runs are driven `runs` times on the SAME evolution object (restart observations).
 """
 import concurrent.futures as cf
 import json
@@ -17,11 +22,13 @@ import os
 import re
 import struct
 import sys
+import time
 
 from vlib import common as C
 
 sys.path.insert(0, os.path.join(C.ROOT, "tools"))
 import translate_tune  # noqa: E402
+import translate_evolution  # noqa: E402
 from cxx2lean import Refuse  # noqa: E402
 
 PROP = "Vita.C06.Props"
@@ -55,9 +62,9 @@ def gen_ring(rng, n):
 
 def common_params(rng, strat, ind):
     individuals = rng.choice([4, 4, 5, 6, 8, 12, 20, 33, 60])
-    # std / DE recombination reads parent[1]: tournament_size = 1 is only exercised by the
-    # selection-only component cases and by corpus/C06/tournament1.cases (known finding)
-    tour = rng.choice([2, 2, 3, 4, individuals, min(individuals, 7)])
+    # tournament_size = 1 ("selecting individuals at random"): recombination picks the mate itself
+    # (fix 3f50779; before, recombination::base / de read parent[1] of a one-element vector)
+    tour = rng.choice([1, 2, 2, 3, 4, individuals, min(individuals, 7)])
     tour = min(tour, individuals)
     mz = rng.choice([tour, tour + 1, max(tour, individuals // 2), individuals, individuals + 5, 20, 4294967295])
     mz = max(mz, tour)
@@ -97,7 +104,7 @@ def gen_comp(rng, n, count):
         if strat == "alps" and ind == "de":
             strat = p["strat"] = "alps"
         what = rng.choice(["sel", "repl", "repl", "family"]) if strat != "alps" else rng.choice(["sel", "repl", "repl"])
-        if what == "sel" and rng.chance(0.25):
+        if what in ("sel", "repl") and rng.chance(0.25):
             p["tournament"] = 1
         p["what"] = what
         p["count"] = count
@@ -113,6 +120,11 @@ def gen_runs(rng, n, big):
         p["generations"] = rng.choice([1, 2, 3, 5]) if not big else rng.choice([3, 6, 10])
         if strat == "alps":
             p["generations"] = rng.choice([4, 6, 9]) if not big else rng.choice([8, 12, 20])
+        # consecutive run()s on the same evolution object (run_count 0, 1, 2): the later ones start
+        # from the evolved population with a cleared summary
+        p["runs"] = rng.choice([1, 2, 2, 3])
+        if p["runs"] > 1 and p["generations"] > 6:
+            p["generations"] = 6
         out.append(fmt("run", p))
     return out
 
@@ -132,8 +144,7 @@ def gen_search(rng, n):
              "cache": rng.choice([0, 8]), "fitk": rng.choice([1, 5, 50]),
              "open_tournament": rng.choice([0, 1]), "open_mate_zone": rng.choice([0, 1]),
              "open_elitism": rng.choice([0, 1]), "open_rates": rng.choice([0, 1]), "open_brood": rng.choice([0, 1])}
-        if p["open_tournament"] and not p["open_mate_zone"]:
-            p["mate_zone"] = max(p["mate_zone"], 5)     # the default tournament_size is 5
+        # (an open tournament_size is filled with min(5, individuals, mate_zone): fix 670c717)
         out.append(fmt("search", p))
     return out
 
@@ -234,6 +245,37 @@ def tune_tags(case, expected):
             "user_individuals": iv(user, "individuals"), "user_min_individuals": iv(user, "min_individuals")}
 
 
+# --------------------------------------------------------------------------- translators
+
+def translated(mod, out, tag):
+    """Run a translator on the current working tree of vita and (re)write `out`.  The result is a
+    function of the sources (everything the translation unit includes) and of the translator, so it is
+    cached under build/ by the content hash of both: an unchanged tree costs a hash, any edit of vita or
+    of the tools re-runs clang.  Returns (stats, changed w.r.t. the file that was there)."""
+    tools = os.path.join(C.ROOT, "tools")
+    extra = ""
+    for f in (mod.__name__ + ".py", "cxx2lean.py", os.path.join("tu", mod.TU)):
+        extra += open(os.path.join(tools, f)).read()
+    key = C.repo_tree_hash(extra)[:24]
+    wd = os.path.join(C.BUILD, "c06")
+    os.makedirs(wd, exist_ok=True)
+    cache = os.path.join(wd, f"{tag}-{key}.json")
+    if os.path.exists(cache):
+        c = json.load(open(cache))
+    else:
+        res = mod.extract()
+        c = {"txt": mod.render(res), "stats": mod.stats(res) if hasattr(mod, "stats") else {k: len(v) for k, v in res.items()}}
+        tmp = cache + ".%d.tmp" % os.getpid()
+        with open(tmp, "w") as f:
+            json.dump(c, f)
+        os.replace(tmp, cache)
+    old = open(out).read() if os.path.exists(out) else None
+    if old != c["txt"]:
+        with open(out, "w") as f:
+            f.write(c["txt"])
+    return c["stats"], old is not None and old != c["txt"]
+
+
 # --------------------------------------------------------------------------- running
 
 def run_shard(exe, cases, tag):
@@ -277,15 +319,30 @@ def run_shard(exe, cases, tag):
 def run(chk, replay=None):
     rng = C.SplitMix(chk.seed)
     broken = []
+    t0 = time.time()
+    phases = {}
+
+    def lap(name):
+        nonlocal t0
+        phases[name] = round(time.time() - t0, 1)
+        t0 = time.time()
 
     # which parameters do is_valid / tune_parameters touch in the current sources? (clang AST)
     try:
-        tables, changed = translate_tune.emit(os.path.join(C.LEAN, "Vita", "C06", "Gen.lean"))
-        chk.cov["translated"] = {k: len(v) for k, v in tables.items()}
+        stats, changed = translated(translate_tune, os.path.join(C.LEAN, "Vita", "C06", "Gen.lean"), "gen")
+        chk.cov["translated"] = stats
         chk.cov["gen_changed_vs_committed"] = bool(changed)
     except Refuse as e:
         broken.append("tools/translate_tune.py refuses the current sources: %s" % e)
-
+    # what do evolution::run, summary::clear, the strategy classes and the tune_parameters say in the
+    # current sources?
+    try:
+        stats, changed = translated(translate_evolution, os.path.join(C.LEAN, "Vita", "C06", "GenEvo.lean"), "genevo")
+        chk.cov["translated_evolution"] = stats
+        chk.cov["genevo_changed_vs_committed"] = bool(changed)
+    except Refuse as e:
+        broken.append("tools/translate_evolution.py refuses the current sources: %s" % e)
+    lap("translate")
     ok, msg = chk.prove(PROP, [PROP, DRIVER])
     drv_ok = os.path.exists(C.driver_path(DRIVER)) and ok
     if not ok:
@@ -293,13 +350,17 @@ def run(chk, replay=None):
         ok2, _ = C.lake_build([DRIVER])
         drv_ok = ok2
 
+    lap("prove")
     C.build_vita("asan")
     with cf.ThreadPoolExecutor(2) as ex:          # the two translation units compile in parallel
         exes = list(ex.map(lambda n: C.build_harness(n, "asan"), [HARNESS_RUN, HARNESS_TUNE]))
     exe_for = lambda case: exes[0] if case.split()[0] in ("comp", "run", "search") else exes[1]
 
+    lap("build")
     # ---- cases -----------------------------------------------------------
     cases = []
+    if replay and "case" not in json.load(open(replay)).get("replay", {}):
+        replay = None          # a proof / translator / correspondence replay names no input: run the whole check again
     if replay:
         r = json.load(open(replay))
         cases = [r["replay"]["case"]]
@@ -314,14 +375,14 @@ def run(chk, replay=None):
         cases += gen_ring(rng, 20 if not thorough else 200)
         cases += gen_tune(rng, 1500 if not thorough else 20000)
         cases += gen_comp(rng, 300 if not thorough else 3000, 100 if not thorough else 200)
-        cases += gen_runs(rng, 420 if not thorough else 4200, thorough)
+        cases += gen_runs(rng, 420 if not thorough else 3000, thorough)     # each case = 1..3 runs on one object
         cases += gen_search(rng, 40 if not thorough else 400)
 
     # ---- harness (sharded) + driver ----------------------------------------
     # shards: interleaved so that each gets a similar mix; one harness binary per shard
     groups = [[c for c in cases if exe_for(c) == exes[0]], [c for c in cases if exe_for(c) == exes[1]]]
     shards, shard_exe = [], []
-    for g, e, n in ((groups[0], exes[0], 5), (groups[1], exes[1], 2)):
+    for g, e, n in ((groups[0], exes[0], 5 if chk.tier != "thorough" else 8), (groups[1], exes[1], 2)):
         n = 1 if len(g) < 8 else n
         for k in range(n):
             part = g[k::n]
@@ -339,7 +400,9 @@ def run(chk, replay=None):
     with cf.ThreadPoolExecutor(nshard) as ex:
         results = list(ex.map(work, range(nshard)))
 
+    lap("harness+driver")
     ndis = 0
+    prev_state = {}            # (shard, case) -> last_imp of the latest observed summary
     broken_cases = set()
     for k, (obs, deaths, ans) in enumerate(results):
         for (ci, rc, se) in deaths:
@@ -368,6 +431,8 @@ def run(chk, replay=None):
                     chk.count(f"{kind}:{kv['strat']}/{kv['T']}")
                     chk.count(f"{kind}:cache={'on' if kv['cache'] != '0' else 'off'}")
                     chk.count(f"{kind}:elitism={kv['elitism']}")
+                    if kind in ("run", "search"):
+                        chk.count(f"{kind}:runs={kv.get('runs', '1')}")
                     if kind == "comp":
                         chk.count("comp:what=" + kv["what"])
             chk.seen((kind, req), nontrivial=(rk not in ("cfg", "noop")))
@@ -376,6 +441,14 @@ def run(chk, replay=None):
                 npar = int(t[2])
                 nch = int(t[3 + 2 * npar + 4])
                 chk.count("step:changes=%d" % min(nch, 3))
+            if rk == "state":
+                t = req.split(" ", 5)
+                chk.count("state:" + t[1])
+                if t[1] == "restart":
+                    chk.count("restart:prev_last_imp>0" if prev_state.get((k, ci), 0) > 0 else "restart:prev_last_imp=0")
+                prev_state[(k, ci)] = int(t[3])
+            if rk == "step":
+                prev_state[(k, ci)] = int(req.split()[-6])
             if rk == "tune":
                 chk.count("tune:valid_after=" + expected.split()[-1])
             if oracle != "ok":
@@ -402,6 +475,8 @@ def run(chk, replay=None):
             if (j * 7919 + ci) % 4001 == 0:
                 chk.sample({"case": case[:200], "request": req[:200], "oracle": oracle,
                             "driver": ans[j][:100] if ans else None})
+    lap("judge")
+    chk.cov["phase_seconds"] = phases
     chk.cov["model_vs_code_disagreements"] = ndis
     chk.cov["cases"] = len(cases)
 
@@ -424,8 +499,10 @@ def run(chk, replay=None):
              "generation boundary, tune_parameters call); distinct = distinct (case kind, observation) "
              "pairs excluding configuration lines; each is judged by the harness oracle and by the Lean driver",
         trusted=["Lean 4.33 kernel", "harness/c06_run.cc, c06_tune.cc (observation + diff of consecutive populations)",
-                 "tools/translate_tune.py + cxx2lean.py (clang-14 JSON AST -> parameter name lists)",
-                 "hand-written models Vita/C06/{Pop,Select,Replace,Tune,Run}.lean (validated by the tie, "
-                 "evolution.tcc itself is not translated)",
+                 "tools/translate_tune.py, tools/translate_evolution.py + cxx2lean.py (clang-14 JSON AST -> parameter "
+                 "name lists; run skeleton, summary::clear table, guarded effects of the strategies)",
+                 "hand-written models Vita/C06/{Pop,Select,Replace,Tune,Run,Evo}.lean (validated by the tie; the run "
+                 "skeleton, summary::clear and the guards of the strategies are read from the AST and proved equal to "
+                 "the model's tables, the strategy bodies beyond their guards are hand-modelled)",
                  "std::bernoulli_distribution(1.0) is always true; total preorder on fitness_t (C18)",
                  "g++ 12.2 ASan/UBSan"])
